@@ -76,8 +76,10 @@ def gen_cases(ctx: Ctx) -> list:
         if ents:
             cases += gen.cases_for_tree(rng, ents, 2, 2, "wide", pkg_prob=0.25)
     # (2b) several roots with overlapping module names (root order, verify_module, near-miss levels)
-    for _ in range(ctx.pick(700, 8000)):
+    for _ in range(ctx.pick(500, 6000)):
         cases.append(gen.multiroot_case(rng))
+    for _ in range(ctx.pick(900, 10000)):
+        cases.append(gen.contested_case(rng))
     # (3) malformed stream
     for _ in range(ctx.pick(300, 4000)):
         ents = gen.odd_tree(rng)
